@@ -12,7 +12,9 @@ CONSTANTS
   AtomicAlloc = TRUE
   IdDecode = "strict"
   IdVocab = "full"
+  KindShift = 0
+  NullResult = "ok"
 INIT SimInit
 NEXT SimNext
-INVARIANTS Matched UniqueIds IdTypePreserved DispatchedToOwner PeerCallsEchoed FramesNeverInterleave ReaderNeverBlocks PendingExact PrintHist
+INVARIANTS Matched UniqueIds IdTypePreserved DispatchedToOwner PeerCallsEchoed FramesNeverInterleave ReaderNeverBlocks ReaderAlive PendingExact PrintHist
 CHECK_DEADLOCK FALSE
